@@ -10,10 +10,10 @@ Conventions
     string order on names is the order on `Nat`); `RouteUpdate.dstNode = none` is "";
   * Go maps / sets are association lists without duplicate keys; everything that
     leaves the model is sorted by the driver;
-  * `ip.CIDRTrie` is an association list CIDR ↦ RouteInfo; `LookupPath c` is the list
-    of entries whose CIDR is a prefix of `c`, shortest first, and is empty when `c`
-    itself is not in the trie (felix/ip/trie.go lookupPath).  The radix structure of the
-    trie is C36's business, not modelled here.
+  * `ip.CIDRTrie` is an association list CIDR ↦ RouteInfo; `LookupPath c` is the list of
+    the trie's entries at `c`'s ancestors (`ancKey c l`, l < len) followed by `c`'s own entry,
+    and is empty when `c` itself is not in the trie (felix/ip/trie.go lookupPath).  The radix
+    structure of the trie is C36's business, not modelled here.
   * IPv6, `Spec.Addresses`, AWS subnets are not modelled.
 Core Lean only (linked into the driver executable).
 -/
@@ -236,17 +236,21 @@ def St.markAllNodeRoutesDirty (s : St) (n : Nat) : St :=
 
 /-! ## flush -/
 
-/-- insertion by prefix length (the path is walked root first). -/
-def insertByLen (e : Cidr × RouteInfo) : List (Cidr × RouteInfo) → List (Cidr × RouteInfo)
-  | [] => [e]
-  | x :: xs => if e.1.len ≤ x.1.len then e :: x :: xs else x :: insertByLen e xs
+/-- the ancestor of `c` at prefix length `l` (the trie node on `c`'s path at depth `l`). -/
+def ancKey (c : Cidr) (l : Nat) : Cidr := ⟨(c.addr / 2 ^ (32 - l)) * 2 ^ (32 - l), l⟩
 
-def sortByLen (l : List (Cidr × RouteInfo)) : List (Cidr × RouteInfo) :=
-  l.foldr insertByLen []
+/-- a RouteInfo without its bookkeeping flag. -/
+def strip (ri : RouteInfo) : RouteInfo := { ri with wasSent := false }
 
-/-- `trie.LookupPath(cidr)`. -/
-def lookupPath (trie : List (Cidr × RouteInfo)) (c : Cidr) : List (Cidr × RouteInfo) :=
-  if (aget trie c).isSome then sortByLen (trie.filter (fun e => e.1.covers c)) else []
+/-- what the trie holds at `k`, as far as route calculation is concerned (absent = empty). -/
+def St.view (s : St) (k : Cidr) : RouteInfo := strip (s.get k)
+
+/-- `trie.LookupPath(c)` for a `c` that is in the trie: the nodes on the path from the root to `c`.
+Trie nodes without data (and absent ones) are listed with an empty RouteInfo, which the loop in
+`flush` passes over without effect; keys of the real trie are canonical (host bits zero), so the
+ancestor at depth `l` is `ancKey c l`. -/
+def fullPath (view : Cidr → RouteInfo) (c : Cidr) : List (Cidr × RouteInfo) :=
+  (List.range c.len).map (fun l => (ancKey c l, view (ancKey c l))) ++ [(c, view c)]
 
 /-- the local variables of the loop in `flush`. -/
 structure Acc where
@@ -309,11 +313,18 @@ def accRefs (me : Nat) (a : Acc) (ri : RouteInfo) : Acc :=
 def accStep (me : Nat) (c : Cidr) (a : Acc) (e : Cidr × RouteInfo) : Acc :=
   accRefs me (accHost me (accBlock me c (accPool a e.2) e) e.2) e.2
 
+/-- "the node `o` is in the subnet of the local node whose info is `l`": the local V4CIDR is known,
+is not the zero value, and contains `o`'s address. -/
+def inSub (l : Option NodeInfo) (o : NodeInfo) : Bool :=
+  match l with
+  | some l => l.cidr != ⟨0, 0⟩ && l.cidr.containsAddr o.v4Addr
+  | none => false
+
 /-- `nodeInOurSubnet(name, 4)`. -/
 def nodeInOurSubnet (me : Nat) (nodes : List (Nat × NodeInfo)) (n : Nat) : Bool :=
-  match aget nodes me, aget nodes n with
-  | some l, some o => l.cidr != ⟨0, 0⟩ && l.cidr.containsAddr o.v4Addr
-  | _, _ => false
+  match aget nodes n with
+  | some o => inSub (aget nodes me) o
+  | none => false
 
 /-- The route `flush` computes for `c` from its lookup path and the node table. -/
 def routeOfPath (me : Nat) (nodes : List (Nat × NodeInfo)) (c : Cidr) (path : List (Cidr × RouteInfo)) :
@@ -336,17 +347,19 @@ def routeOfPath (me : Nat) (nodes : List (Nat × NodeInfo)) (c : Cidr) (path : L
     sameSubnet := ss, natOutgoing := a.nat, localWorkload := a.localWorkload, borrowed := a.borrowed,
     tunnel := a.tunnel }
 
+/-- the route `flush` computes for `c` in state `s`. -/
+def St.route (s : St) (c : Cidr) : RouteUpdate := routeOfPath s.me s.nodes c (fullPath s.view c)
+
 /-- one iteration of the loop in `flush` for the dirty CIDR `c`. -/
 def St.flushOne (s : St) (c : Cidr) : St × List Event :=
-  let path := lookupPath s.trie c
-  match path.getLast? with
+  match aget s.trie c with
   | none => (s, [])
   | some last =>
-    if last.2.wasSent && !last.2.isValidRoute then
+    if last.wasSent && !last.isValidRoute then
       (s.setRouteSent c false, [Event.remove c])
     else if c = Cidr.host 0 then (s, [])
     else
-      (s.setRouteSent c true, [Event.update (routeOfPath s.me s.nodes c path)])
+      (s.setRouteSent c true, [Event.update (s.route c)])
 
 def cidrLe (a b : Cidr) : Bool := a.addr < b.addr || (a.addr == b.addr && a.len ≤ b.len)
 
@@ -354,14 +367,19 @@ def insertCidr (c : Cidr) : List Cidr → List Cidr
   | [] => [c]
   | x :: xs => if cidrLe c x then c :: x :: xs else x :: insertCidr c xs
 
+/-- the loop of `flush` over the (sorted) dirty CIDRs. -/
+def flushList : St → List Cidr → St × List Event
+  | s, [] => (s, [])
+  | s, c :: cs =>
+    let r1 := s.flushOne c
+    let r2 := flushList r1.1 cs
+    (r2.1, r1.2 ++ r2.2)
+
 /-- `flush`: every dirty CIDR is processed independently; the model walks them in
 (addr, len) order so that the event list is canonical. -/
 def St.flush (s : St) : St × List Event :=
-  let ds := s.dirty.foldr insertCidr []
-  let (s, evs) := ds.foldl (fun (acc : St × List Event) c =>
-    let (s', e) := acc.1.flushOne c
-    (s', acc.2 ++ e)) (s, [])
-  ({ s with dirty := [] }, evs)
+  let r := flushList s (s.dirty.foldr insertCidr [])
+  ({ r.1 with dirty := [] }, r.2)
 
 /-! ## Update handlers -/
 
@@ -445,42 +463,48 @@ def removeTunnelRefs (s : St) (n : Nat) (i : NodeInfo) : St :=
   let s := if i.vxlan != 0 then s.removeRef (Cidr.host i.vxlan) n refVXLAN else s
   if i.wg != 0 then s.removeRef (Cidr.host i.wg) n refWireguard else s
 
+/-- the test inside the `visitAllRoutes` callbacks of `onNodeUpdate`: does the same-subnet status
+of the node this trie entry is attributed to flip when the local node goes from `old` to `new`? -/
+def subnetFlip (s : St) (old new : Option NodeInfo) (ri : RouteInfo) : Bool :=
+  match visitNode ri with
+  | none => false
+  | some other =>
+    if other == s.me then false
+    else match aget s.nodes other with
+      | none => false
+      | some oi => inSub old oi != inSub new oi
+
+def cidrOf (i : Option NodeInfo) : Cidr := match i with | some o => o.cidr | none => ⟨0, 0⟩
+
+/-- `onNodeUpdate`, part 1: when OUR cidr changes, re-evaluate the same-subnet status of every route. -/
+def St.nodeVisit (s : St) (n : Nat) (old new : Option NodeInfo) : St :=
+  if n == s.me && cidrOf old != cidrOf new then
+    (s.trie.filter (fun e => subnetFlip s old new e.2)).foldl (fun s' e => s'.markDirty e.1) s
+  else s
+
+/-- part 2: tunnel address refs, adds before removes. -/
+def St.nodeRefs (s : St) (n : Nat) (old new : Option NodeInfo) : St :=
+  let s := match new with | some i => addTunnelRefs s n i | none => s
+  match old with | some i => removeTunnelRefs s n i | none => s
+
+/-- part 3: the node table and the host entries. -/
+def St.nodeHosts (s : St) (n : Nat) (old new : Option NodeInfo) : St :=
+  let s := match old with
+    | some o =>
+      let s := { s with nodes := adel s.nodes n }
+      if o.v4Addr != 0 then s.removeHost (Cidr.host o.v4Addr) n else s
+    | none => s
+  match new with
+    | some i =>
+      let s := { s with nodes := aset s.nodes n i }
+      if i.v4Addr != 0 then s.addHost (Cidr.host i.v4Addr) n else s
+    | none => s
+
 /-- `onNodeUpdate`. -/
 def St.onNodeUpdate (s : St) (n : Nat) (new : Option NodeInfo) : St :=
   let old := aget s.nodes n
   if new = old then s
-  else
-    let oldCidr : Cidr := match old with | some o => o.cidr | none => ⟨0, 0⟩
-    let newCidr : Cidr := match new with | some o => o.cidr | none => ⟨0, 0⟩
-    -- same-subnet re-evaluation when OUR cidr changes
-    let s :=
-      if n == s.me && oldCidr != newCidr then
-        s.trie.foldl (fun (s' : St) e =>
-          match visitNode e.2 with
-          | none => s'
-          | some other =>
-            if other == s.me then s'
-            else match aget s.nodes other with
-              | none => s'
-              | some oi =>
-                -- the zero CIDR ("no IPv4 address") is not a subnet (as in `nodeInOurSubnet`)
-                let was := old.isSome && oldCidr != ⟨0, 0⟩ && oldCidr.containsAddr oi.v4Addr
-                let now := new.isSome && newCidr != ⟨0, 0⟩ && newCidr.containsAddr oi.v4Addr
-                if was != now then s'.markDirty e.1 else s') s
-      else s
-    let s := match new with | some i => addTunnelRefs s n i | none => s
-    let s := match old with | some i => removeTunnelRefs s n i | none => s
-    let s := match old with
-      | some o =>
-        let s := { s with nodes := adel s.nodes n }
-        if o.v4Addr != 0 then s.removeHost (Cidr.host o.v4Addr) n else s
-      | none => s
-    let s := match new with
-      | some i =>
-        let s := { s with nodes := aset s.nodes n i }
-        if i.v4Addr != 0 then s.addHost (Cidr.host i.v4Addr) n else s
-      | none => s
-    s.markAllNodeRoutesDirty n
+  else (((s.nodeVisit n old new).nodeRefs n old new).nodeHosts n old new).markAllNodeRoutesDirty n
 
 def St.apply (s : St) (op : Op) : St :=
   match op with
